@@ -565,6 +565,10 @@ Json::Value genC12(Rng& rng) {
          "100%", "4096K", "2G", "1T", "0.5M", "1.25K 3", "3G 512", "2048",
          "7%", "33%"});
     plan["anon"] = rng.chance(0.3);
+    // "when both are specified, only threshold_anon is effective": a
+    // far-away `threshold` next to it must change nothing
+    if (plan["anon"].asBool() && rng.chance(0.5))
+      plan["decoy_threshold"] = rng.pick<std::string>({"1T", "64T", "1", "0"});
     plan["ticks"] = 2;
   }
   plan["interval"] = 1;
@@ -832,6 +836,8 @@ void runExact() {
   a["cgroup"] = "t";
   if (plugin == "memory_above") {
     a[anon ? "threshold_anon" : "threshold"] = thr;
+    if (anon && R.plan.isMember("decoy_threshold"))
+      a["threshold"] = R.plan["decoy_threshold"];
     a["duration"] = "0";
     Json::Value dg(Json::arrayValue);
     dg.append("g");
